@@ -364,3 +364,66 @@ func verifC07BlockPath() {
 }
 
 func VerifC07BlockPath() { verifC07BlockPath() }
+
+// VerifC01SignedChain: a block holding a signed spend chain (s2 spends an output s1 creates in the same
+// block) beside an award-only branch; the node walks between the blocks of both branches (3 walks, any
+// targets), so that the chain is applied by Walk's redo half and taken back by its undo half.  After
+// every walk the node - including what SelectUtxos hands out from its output cache - must equal a
+// replica that played the path from genesis.  Signatures are the ideal stub's (see the top of this file).
+func VerifC01SignedChain() {
+	e := vkit.NewEnv("c01s", vkit.Genesis("0", "9", "5"), nil)
+	st := vcrypto.Ideal([]string{"A", "B", "C"})
+	vrt.CryptoClient = st
+	vkit.ObserveSelect = true
+	s := e.NewStateWith("live", st, c07acl{})
+	vrt.Assert(s.Play(e.Root.Blockid) == nil, "genesis-plays")
+	signed := func(id int, from, nonce string, ins []*protos.TxInput, outs []*protos.TxOutput) *pb.Transaction {
+		tx := &pb.Transaction{Version: 3, Initiator: from, Nonce: nonce, Timestamp: 7, TxInputs: ins, TxOutputs: outs}
+		digest, err := txhash.MakeTxDigestHash(tx)
+		vrt.Assert(err == nil, "digest-computed")
+		tx.InitiatorSigns = []*protos.SignatureInfo{{PublicKey: st.KeyString(id), Sign: st.Sign(id, digest)}}
+		tx.Txid, err = txhash.MakeTransactionID(tx)
+		vrt.Assert(err == nil, "id-computed")
+		return tx
+	}
+	s1 := signed(0, "A", "n1", []*protos.TxInput{vkit.In(e.RootTx.Txid, 0, "A", big.NewInt(9))}, []*protos.TxOutput{vkit.Out("B", big.NewInt(4), 0), vkit.Out("A", big.NewInt(5), 0)})
+	s2 := signed(1, "B", "n2", []*protos.TxInput{vkit.In(s1.Txid, 0, "B", big.NewInt(4))}, []*protos.TxOutput{vkit.Out("C", big.NewInt(3), 0), vkit.Out("B", big.NewInt(1), 0)})
+	s3 := signed(2, "C", "n3", []*protos.TxInput{vkit.In(s2.Txid, 0, "C", big.NewInt(3))}, []*protos.TxOutput{vkit.Out("A", big.NewInt(3), 0)})
+	blocks := []*pb.InternalBlock{e.Root}
+	parent := []int{-1}
+	add := func(p int, nonce int32, txs []*pb.Transaction) int {
+		b := vkit.Block(blocks[p].Blockid, nonce, txs)
+		vrt.Assert(e.L.ConfirmBlock(b, false).Succ, "block-confirmed-by-ledger")
+		blocks = append(blocks, b)
+		parent = append(parent, p)
+		return len(blocks) - 1
+	}
+	c1 := add(0, 1, []*pb.Transaction{vkit.Coinbase("cb1", "M", []byte{7}), s1, s2})
+	add(c1, 2, []*pb.Transaction{vkit.Coinbase("cb2", "M", []byte{7}), s3})
+	d1 := add(0, 3, []*pb.Transaction{vkit.Coinbase("cb3", "M", []byte{7})})
+	add(d1, 4, []*pb.Transaction{vkit.Coinbase("cb4", "M", []byte{7})})
+	at := 0
+	for step := 0; step < 3; step++ {
+		target := vrt.Choice("target", len(blocks))
+		if target == at {
+			continue
+		}
+		err := s.Walk(blocks[target].Blockid, false)
+		vrt.Quiesce()
+		vrt.Assert(err == nil, "walk-succeeds")
+		if err != nil {
+			return
+		}
+		at = target
+		vrt.Cover("chain-applied-by-walk", at == 1 || at == 2)
+		rep := e.NewStateWith("replica"+string([]byte{byte('0' + step)}), st, c07acl{})
+		var path []int
+		for i := at; i >= 0; i = parent[i] {
+			path = append([]int{i}, path...)
+		}
+		for _, i := range path {
+			vrt.Assert(rep.Play(blocks[i].Blockid) == nil, "replica-plays-chain-in-order")
+		}
+		vkit.Same(vkit.Observe(s), vkit.Observe(rep), func(c bool, label string) { vrt.Assert(c, "walked-node-equals-replica-"+label) })
+	}
+}
